@@ -1422,7 +1422,9 @@ class Interp:
                 elems = seq0
             else:
                 # one symbolic iteration stands for every element
-                elems = [R("elem", of=it)]
+                # (inside a generator helper that is interpreted eagerly: TWO rounds with the same representative, so that a
+                # filter with a memory - `if type(e) in seen: continue` - shows as a round that yields nothing)
+                elems = [R("elem", of=it)] * max(1, getattr(self, "symbolic_rounds", 1))
                 st.effects.append(("foreach", norm(s.iter), it))
             live, done, finished = [st], [], []
             for el in elems:
